@@ -13,6 +13,7 @@ var c02Alphabet = []string{"Pc", "Ps", "Pb", "H", "UL1", "UL3", "OL2", "ULn", "B
 	"INL", "JS1", "JS2", "BR", "HID", "HIDs", "NOS", "PIC", "DIVt", "VID", "YT", "TXT", "TBLh", "LItbl", "SIDE"}
 
 func c02Enumerate(tier string, emit func(*eng.Case)) {
+	own := withDecor(decorEvery(tier), emit)
 	atoms := ora.StdAtoms
 	alpha := ora.AtomIndex(atoms, c02Alphabet...)
 	starts := ora.StdSkeletons(atoms)
@@ -22,12 +23,12 @@ func c02Enumerate(tier string, emit func(*eng.Case)) {
 	}
 	for _, url := range []string{"", "http://example.com/a/b/story.html"} {
 		ora.EnumDocs(starts, alpha, maxE, func(d *ora.DocModel, edits int) {
-			emit(caseFromModel("doc", d, atoms, url))
+			own(caseFromModel("doc", d, atoms, url))
 		})
 		// S3 (first extraction pass suffices): single edits, and pairs in thorough
 		big := ora.BigSkeleton(atoms)
 		ora.EnumDocs([]*ora.DocModel{big}, alpha, maxE-1, func(d *ora.DocModel, edits int) {
-			emit(caseFromModel("doc", d, atoms, url))
+			own(caseFromModel("doc", d, atoms, url))
 		})
 	}
 	crossEmit("C02", tier, "xdoc", 1, emit)
@@ -92,7 +93,7 @@ func init() {
 			if tier == "thorough" {
 				e = 3
 			}
-			return map[string]any{"max_edits": e, "atoms": len(c02Alphabet), "skeletons": []string{"S1", "S2", "S3(max_edits-1)"}, "page_urls": 2, "cross": crossBounds(tier)}
+			return map[string]any{"decorated_variants": decorBound(tier), "max_edits": e, "atoms": len(c02Alphabet), "skeletons": []string{"S1", "S2", "S3(max_edits-1)"}, "page_urls": 2, "cross": crossBounds(tier)}
 		},
 	})
 }
